@@ -196,12 +196,20 @@ Definition moveEqb (a b : move) : bool :=
 
 Definition containsMove (legal : list move) (m : move) : bool := existsb (fun l => moveEqb l m) legal.
 
-(** first loop: every candidate must be in the legal list (else return at once), weights summed.
-    [wf] is Book::getWeight for the kind of book in use. *)
+(** the largest weight sum Book::getBookMove accepts: [if (sum > (1 << 30)) return;] *)
+Definition sumLimit : Z := 2 ^ pgSumLimitBits.
+
+(** first loop: every candidate must be in the legal list (else return at once); weights are
+    summed and the probe gives up (no move) as soon as the running sum exceeds [sumLimit] — the
+    sum is then too large for Random::nextInt and the next addition could overflow [int].
+    [wf] is Book::getWeight for the kind of book in use.  [None] = returned inside the loop. *)
 Fixpoint sumLegal (wf : Z -> Z) (legal : list move) (ents : list (move * Z)) (sum : Z) : option Z :=
   match ents with
   | [] => Some sum
-  | (m, c) :: t => if containsMove legal m then sumLegal wf legal t (sum + wf c) else None
+  | (m, c) :: t =>
+      if containsMove legal m
+      then (let s := sum + wf c in if s >? sumLimit then None else sumLegal wf legal t s)
+      else None
   end.
 
 Inductive outcome := OutMove (m : move) | OutAssert.     (* OutAssert = assert(false) reached *)
@@ -225,8 +233,8 @@ Definition getBookMove (wf : Z -> Z) (legal : list move) (ents : list (move * Z)
 
 Definition pgWeight (c : Z) : Z := c.                    (* getWeight(count, true) *)
 
-(** total weight of an entry list (exact integers; what the first loop computes when no
-    candidate is rejected and no [int] overflow happens) *)
+(** total weight of an entry list (exact integers; what the first loop computes when it runs to
+    the end) *)
 Fixpoint weightSum (wf : Z -> Z) (ents : list (move * Z)) : Z :=
   match ents with
   | [] => 0
@@ -244,11 +252,22 @@ Definition pgBookMove (f : bookFile) (key : N) (pos : position) (legal : list mo
 Definition intMax : Z := 2147483647.
 Definition inInt (x : Z) : bool := (- intMax - 1 <=? x) && (x <=? intMax).
 
-(** every partial sum of the two weight loops stays inside [int] *)
+(** every partial sum of the second loop (all prefix sums) stays inside [int] *)
 Fixpoint sumsInInt (wf : Z -> Z) (ents : list (move * Z)) (sum : Z) : bool :=
   match ents with
   | [] => true
   | (_, c) :: t => inInt (sum + wf c) && sumsInInt wf t (sum + wf c)
+  end.
+
+(** every addition the first loop actually executes stays inside [int] (it stops at an illegal
+    candidate and at the first running sum above [sumLimit]) *)
+Fixpoint loop1InInt (wf : Z -> Z) (legal : list move) (ents : list (move * Z)) (sum : Z) : bool :=
+  match ents with
+  | [] => true
+  | (m, c) :: t =>
+      if containsMove legal m
+      then inInt (sum + wf c) && (if sum + wf c >? sumLimit then true else loop1InInt wf legal t (sum + wf c))
+      else true
   end.
 
 (** * Random::nextInt(modulo): one trial of the rejection loop on a raw 64-bit value [u].
